@@ -44,6 +44,12 @@ def gen_case(rng, big=False):
         if pair_titles and k < 2:
             title = pair_titles[k]            # "Drums L" / "Drums R": tracks are stereo files on their own, never merged
         tracks.append({"number": k + 1, "mode": "AUDIO", "title": title, "indices": idx})
+    # several tracks carrying the same TITLE (an "Interlude" that returns, the album title on every track)
+    if len(tracks) >= 2 and rng.random() < 0.3:
+        dup = rng.choice(["Interlude", "Album", tracks[0]["title"] or "Same"])
+        for t in (tracks if rng.random() < 0.3 else rng.sample(tracks, 2)):
+            if not (pair_titles and t["number"] <= 2):
+                t["title"] = dup
     last = fr[-1]
     tail = rng.choice([0, 1, 2, 3, 4, 5, 2351, 2352, 2353, 4704 + 6, 1000, 7])
     total = (last + rng.choice([0, 1, 2])) * 2352 + tail
@@ -114,6 +120,22 @@ def w_cases(pid, tier, seed, job):
             r, tree, reported = R.export(path)
         ctx.count("cdda_export", (tuple(lines), total), nontrivial=len(fr) > 1 or total % 2352 != 0)
         names = expected_names(sheet)
+        if len(set(names)) < len(names):
+            # tracks sharing a title are told apart by a counter whose exact spelling is C06/C10's subject: here every track
+            # must still get a file of its own; the files are matched to the tracks by their content (position stamps)
+            ok_cnt = r.exc is None and len(tree) == len(names) and sorted(tree) == sorted(reported) and len(set(reported)) == len(reported)
+            ctx.require("one WAV per track, nothing else", dict(case, duplicate_titles=True), ok_cnt,
+                        {"reported": reported, "files": sorted(tree), "exc": r.exc_name, "tracks": len(names)})
+            if not ok_cnt:
+                continue
+            slices = []
+            for k in range(len(fr)):
+                e = binb[2352 * fr[k]:(2352 * fr[k + 1] if k + 1 < len(fr) else total)]
+                slices.append(e[:len(e) - len(e) % 4] if k + 1 == len(fr) else e)
+            datas = sorted(R.parse_wav(b).get("data", b"") for b in tree.values())
+            ctx.require("track PCM = bin bytes from its first index to the next track's first index (last: to EOF, whole frames)",
+                        dict(case, duplicate_titles=True), datas == sorted(slices), {"lens": [len(d) for d in datas], "expected": [len(x) for x in slices]})
+            continue
         ok_names = sorted(reported) == sorted(n + ".wav" for n in names) and r.exc is None
         ctx.require("one WAV per track, nothing else", case, ok_names and sorted(tree) == sorted(reported),
                     {"reported": reported, "files": sorted(tree), "exc": r.exc_name, "expected": names})
